@@ -129,6 +129,9 @@ pub struct SchedCfg {
     pub v6_first: bool,
     #[serde(default)]
     pub seed: u64,
+    /// wake every DUT at every multiple of this many ms although nothing is due (0 = off)
+    #[serde(default, skip_serializing_if = "is_zero")]
+    pub tick_ms: u64,
     /// fixed values returned by the jitter seam, in order; afterwards `jitter_seed` or 0
     #[serde(default, skip_serializing_if = "Vec::is_empty")]
     pub jitter: Vec<Vec<u64>>,
